@@ -1,4 +1,275 @@
-(* C14 - tags select exactly the tagged arguments and survive every transformation. *)
-From Fiddle Require Import PyBase PySlice Sig ArgStore PyCall Heap Traverse Tags Anchors.
+(* C14 - tags select exactly the tagged arguments and survive every transformation.
+   Model: Tags.apply_tagged / Tags.set_tagged (tagging.set_tagged: a lazy memoized pre-order walk
+   that overwrites a Buildable BEFORE enumerating its children), Tags.list_tags, and the
+   per-Buildable tag operations History.add_tag / remove_tag / clear_tags / set_tags.
+   Statements only; proofs are in theories/Tags_proofs.v.
+   Hypotheses: wf_b = children point to smaller ids (acyclic); keys_ok = dict / named-tuple keys
+   are distinct; root_ok = the root is not a dangling pointer; args_ok = the argument dict of a
+   Buildable has distinct keys.  creach e h r i = object i is reachable from r by child steps in
+   heap h; reach = reachable by a path of PathElement.follow steps (the same under keys_ok).
+   Hypotheses a statement does not need have been dropped. *)
+From Fiddle Require Import PyBase PySlice Sig ArgStore History PyCall Heap Traverse Build Build_stmt
+  Traverse_proofs Build_proofs Tags Tags_proofs Anchors.
+From Coq Require Import List Sorted.
+Import ListNotations.
+Local Open Scope nat_scope.
 
-Example C14_placeholder : True. Proof. exact I. Qed.
+(* ------------------------------------------------------------------------------------------ *)
+(* 1. one object *)
+
+(* apply_tagged sets exactly the arguments whose tag set contains a subtag of T, keeps the tag map
+   and the callable, and leaves every other kind of object alone.  (Distinct tag keys are not
+   needed.) *)
+Theorem C14_apply_tagged_char : forall (subtags : list (N * N)) (T : N) (x : ref) (n : node),
+  match n with
+  | NBuildable k fn args tags =>
+      exists args' : store,
+        apply_tagged subtags T x n = NBuildable k fn args' tags /\
+        (forall kk : skey,
+           ((exists ts, In (kk, ts) tags /\ tag_matches subtags T ts = true) -> sget args' kk = Some x) /\
+           (~ (exists ts, In (kk, ts) tags /\ tag_matches subtags T ts = true) ->
+            sget args' kk = sget args kk))
+  | _ => apply_tagged subtags T x n = n
+  end.
+Proof. exact apply_tagged_char. Qed.
+Print Assumptions C14_apply_tagged_char.
+
+(* ------------------------------------------------------------------------------------------ *)
+(* 2. set_tagged with a leaf value *)
+
+Theorem C14_set_tagged_length : forall e subtags T a h r,
+  length (set_tagged e subtags h r T (RA a)) = length h.
+Proof. exact set_tagged_leaf_length. Qed.
+Print Assumptions C14_set_tagged_length.
+
+(* An object that is still reachable from the root in the NEW heap holds apply_tagged of its old
+   value; every other object is unchanged. *)
+Theorem C14_set_tagged_nodes : forall e subtags T a h r,
+  wf_b e h = true -> root_ok h r ->
+  forall i n, nth_error h i = Some n ->
+    (creach e (set_tagged e subtags h r T (RA a)) r i ->
+     nth_error (set_tagged e subtags h r T (RA a)) i = Some (apply_tagged subtags T (RA a) n)) /\
+    (~ creach e (set_tagged e subtags h r T (RA a)) r i ->
+     nth_error (set_tagged e subtags h r T (RA a)) i = Some n).
+Proof. exact set_tagged_leaf_nodes. Qed.
+Print Assumptions C14_set_tagged_nodes.
+
+(* The same with reachability by paths (PathElement.follow). *)
+Theorem C14_set_tagged_nodes_reach : forall e subtags T a h r,
+  wf_b e h = true -> root_ok h r -> keys_ok h ->
+  forall i n, nth_error h i = Some n ->
+    (reach e (set_tagged e subtags h r T (RA a)) r i ->
+     nth_error (set_tagged e subtags h r T (RA a)) i = Some (apply_tagged subtags T (RA a) n)) /\
+    (~ reach e (set_tagged e subtags h r T (RA a)) r i ->
+     nth_error (set_tagged e subtags h r T (RA a)) i = Some n).
+Proof. exact set_tagged_leaf_nodes_reach. Qed.
+Print Assumptions C14_set_tagged_nodes_reach.
+
+(* The "if" form, for any value and any heap: `visited` is the memo of the walk (decidable);
+   C14_set_tagged_visited says what it is. *)
+Theorem C14_set_tagged_marked : forall e subtags T x h r,
+  length (set_tagged e subtags h r T x) = length h /\
+  forall i n, nth_error h i = Some n ->
+    nth_error (set_tagged e subtags h r T x) i =
+    Some (if existsb (Nat.eqb i) (visited e subtags T x h r) then apply_tagged subtags T x n else n).
+Proof. exact set_tagged_marked. Qed.
+Print Assumptions C14_set_tagged_marked.
+
+(* The objects the walk visits (Tags_proofs.visited: the memo of st_visit) are exactly those
+   reachable from the root in the new heap ... *)
+Theorem C14_set_tagged_visited : forall e subtags T a h r,
+  wf_b e h = true -> root_ok h r ->
+  forall i, In i (visited e subtags T (RA a) h r) <-> creach e (set_tagged e subtags h r T (RA a)) r i.
+Proof. exact set_tagged_leaf_visited. Qed.
+Print Assumptions C14_set_tagged_visited.
+
+(* ... and they were reachable in the old heap. *)
+Theorem C14_set_tagged_reach_subset : forall e subtags T a h r,
+  wf_b e h = true -> root_ok h r -> args_ok h ->
+  forall i, creach e (set_tagged e subtags h r T (RA a)) r i -> creach e h r i.
+Proof. exact set_tagged_leaf_reach_old. Qed.
+Print Assumptions C14_set_tagged_reach_subset.
+
+(* The new heap is again well-formed. *)
+Theorem C14_set_tagged_wf : forall e subtags T a h r,
+  wf_b e h = true -> root_ok h r -> wf_b e (set_tagged e subtags h r T (RA a)) = true.
+Proof. exact set_tagged_leaf_wf. Qed.
+Print Assumptions C14_set_tagged_wf.
+
+(* Every argument of every Buildable still reachable from the root whose tag set contains a subtag
+   of T holds the value; no other argument, no tag set, no callable and no other object changed. *)
+Theorem C14_set_tagged_exact : forall e subtags T a h r,
+  wf_b e h = true -> root_ok h r ->
+  length (set_tagged e subtags h r T (RA a)) = length h /\
+  (forall i n, nth_error h i = Some n ->
+     (forall k fn args tags, n <> NBuildable k fn args tags) ->
+     nth_error (set_tagged e subtags h r T (RA a)) i = Some n) /\
+  (forall i k fn args tags, nth_error h i = Some (NBuildable k fn args tags) ->
+     exists args' : store,
+       nth_error (set_tagged e subtags h r T (RA a)) i = Some (NBuildable k fn args' tags) /\
+       (~ creach e (set_tagged e subtags h r T (RA a)) r i -> args' = args) /\
+       (forall kk : skey,
+          (creach e (set_tagged e subtags h r T (RA a)) r i /\
+           (exists ts, In (kk, ts) tags /\ tag_matches subtags T ts = true) ->
+           sget args' kk = Some (RA a)) /\
+          (~ (creach e (set_tagged e subtags h r T (RA a)) r i /\
+              (exists ts, In (kk, ts) tags /\ tag_matches subtags T ts = true)) ->
+           sget args' kk = sget args kk))).
+Proof. exact set_tagged_exact. Qed.
+Print Assumptions C14_set_tagged_exact.
+
+(* "Reachable" has to be read in the NEW heap: an object that hangs under an overwritten argument
+   is reachable in the old heap, may carry a matching tag, and is not updated. *)
+Theorem C14_set_tagged_old_reach_false :
+  creach tg_env tg_heap tg_root 1 /\
+  (exists k fn args tags kk ts,
+     nth_error tg_heap 1 = Some (NBuildable k fn args tags) /\ In (kk, ts) tags /\
+     tag_matches tg_subtags 100%N ts = true) /\
+  nth_error (set_tagged tg_env tg_subtags tg_heap tg_root 100%N (RA (AInt 9))) 1 = nth_error tg_heap 1.
+Proof. exact set_tagged_old_reach_false. Qed.
+Print Assumptions C14_set_tagged_old_reach_false.
+
+(* ------------------------------------------------------------------------------------------ *)
+(* 3. set_tagged with any value that is older than the objects it is stored in *)
+
+Theorem C14_set_tagged_nodes_gen : forall e subtags T x h r,
+  wf_b e h = true -> root_ok h r ->
+  (forall i n, nth_error h i = Some n -> apply_tagged subtags T x n <> n -> ref_below i x = true) ->
+  forall i n, nth_error h i = Some n ->
+    (creach e (set_tagged e subtags h r T x) r i ->
+     nth_error (set_tagged e subtags h r T x) i = Some (apply_tagged subtags T x n)) /\
+    (~ creach e (set_tagged e subtags h r T x) r i ->
+     nth_error (set_tagged e subtags h r T x) i = Some n).
+Proof. exact set_tagged_nodes_gen. Qed.
+Print Assumptions C14_set_tagged_nodes_gen.
+
+Theorem C14_set_tagged_ptr_nodes : forall e subtags T (v : nat) h r,
+  wf_b e h = true -> root_ok h r ->
+  (forall i k fn args tags kk ts,
+     nth_error h i = Some (NBuildable k fn args tags) ->
+     In (kk, ts) tags -> tag_matches subtags T ts = true -> v < i) ->
+  forall i n, nth_error h i = Some n ->
+    (creach e (set_tagged e subtags h r T (RP v)) r i ->
+     nth_error (set_tagged e subtags h r T (RP v)) i = Some (apply_tagged subtags T (RP v) n)) /\
+    (~ creach e (set_tagged e subtags h r T (RP v)) r i ->
+     nth_error (set_tagged e subtags h r T (RP v)) i = Some n).
+Proof. exact set_tagged_ptr_nodes. Qed.
+Print Assumptions C14_set_tagged_ptr_nodes.
+
+Theorem C14_set_tagged_ptr_wf : forall e subtags T (v : nat) h r,
+  wf_b e h = true -> root_ok h r ->
+  (forall i k fn args tags kk ts,
+     nth_error h i = Some (NBuildable k fn args tags) ->
+     In (kk, ts) tags -> tag_matches subtags T ts = true -> v < i) ->
+  wf_b e (set_tagged e subtags h r T (RP v)) = true.
+Proof. exact set_tagged_ptr_wf. Qed.
+Print Assumptions C14_set_tagged_ptr_wf.
+
+(* ------------------------------------------------------------------------------------------ *)
+(* 4. list_tags *)
+
+Theorem C14_list_tags_in : forall e h r, wf_b e h = true -> root_ok h r -> forall t,
+  In t (list_tags e h r) <->
+  exists i k fn args tags kk ts,
+    creach e h r i /\ nth_error h i = Some (NBuildable k fn args tags) /\ In (kk, ts) tags /\ In t ts.
+Proof. exact list_tags_in. Qed.
+Print Assumptions C14_list_tags_in.
+
+Theorem C14_list_tags_in_reach : forall e h r, wf_b e h = true -> keys_ok h -> root_ok h r -> forall t,
+  In t (list_tags e h r) <->
+  exists i k fn args tags kk ts,
+    reach e h r i /\ nth_error h i = Some (NBuildable k fn args tags) /\ In (kk, ts) tags /\ In t ts.
+Proof. exact list_tags_in_reach. Qed.
+Print Assumptions C14_list_tags_in_reach.
+
+Theorem C14_list_tags_sorted : forall e h r, StronglySorted N.lt (list_tags e h r).
+Proof. exact list_tags_sorted. Qed.
+Print Assumptions C14_list_tags_sorted.
+
+Theorem C14_list_tags_nodup : forall e h r, NoDup (list_tags e h r).
+Proof. exact list_tags_nodup. Qed.
+Print Assumptions C14_list_tags_nodup.
+
+(* ------------------------------------------------------------------------------------------ *)
+(* 5. the tag operations of one Buildable: only the tag set of the named argument moves *)
+
+Theorem C14_add_tag_frame : forall sg s a t s', add_tag sg s a t = (s', None) ->
+  exists k, targ_key sg s a = inl k /\
+    b_args s' = b_args s /\
+    (forall k', k' <> k -> tags_get (b_tags s') k' = tags_get (b_tags s) k') /\
+    tags_get (b_tags s') k = tset_add t (tags_get (b_tags s) k).
+Proof. exact add_tag_frame. Qed.
+Print Assumptions C14_add_tag_frame.
+
+Theorem C14_add_tag_error : forall sg s a t s' ex, add_tag sg s a t = (s', Some ex) -> s' = s.
+Proof. exact add_tag_error. Qed.
+Print Assumptions C14_add_tag_error.
+
+Theorem C14_remove_tag_frame : forall sg s a t s', remove_tag sg s a t = (s', None) ->
+  exists k, targ_key sg s a = inl k /\
+    b_args s' = b_args s /\
+    (forall k', k' <> k -> tags_get (b_tags s') k' = tags_get (b_tags s) k') /\
+    tags_get (b_tags s') k = tset_remove t (tags_get (b_tags s) k) /\ In t (tags_get (b_tags s) k).
+Proof. exact remove_tag_frame. Qed.
+Print Assumptions C14_remove_tag_frame.
+
+(* a failing remove_tag may create an empty entry (the defaultdict was read), nothing else *)
+Theorem C14_remove_tag_error : forall sg s a t s' ex, remove_tag sg s a t = (s', Some ex) ->
+  b_args s' = b_args s /\ forall k', tags_get (b_tags s') k' = tags_get (b_tags s) k'.
+Proof. exact remove_tag_error. Qed.
+Print Assumptions C14_remove_tag_error.
+
+Theorem C14_clear_tags_frame : forall sg s a s', clear_tags sg s a = (s', None) ->
+  exists k, targ_key sg s a = inl k /\
+    b_args s' = b_args s /\
+    (forall k', k' <> k -> tags_get (b_tags s') k' = tags_get (b_tags s) k') /\
+    tags_get (b_tags s') k = [].
+Proof. exact clear_tags_frame. Qed.
+Print Assumptions C14_clear_tags_frame.
+
+Theorem C14_clear_tags_error : forall sg s a s' ex, clear_tags sg s a = (s', Some ex) -> s' = s.
+Proof. exact clear_tags_error. Qed.
+Print Assumptions C14_clear_tags_error.
+
+(* duplicates in ts are harmless *)
+Theorem C14_set_tags_frame : forall sg s a ts s', set_tags sg s a ts = (s', None) ->
+  exists k, targ_key sg s a = inl k /\
+    b_args s' = b_args s /\
+    (forall k', k' <> k -> tags_get (b_tags s') k' = tags_get (b_tags s) k') /\
+    (forall t, In t (tags_get (b_tags s') k) <-> In t ts).
+Proof. exact set_tags_frame. Qed.
+Print Assumptions C14_set_tags_frame.
+
+Theorem C14_set_tags_error : forall sg s a ts s' ex, set_tags sg s a ts = (s', Some ex) -> s' = s.
+Proof. exact set_tags_error. Qed.
+Print Assumptions C14_set_tags_error.
+
+(* ------------------------------------------------------------------------------------------ *)
+(* 6. non-vacuity: f(p0, /, a, b, c) tagged on p0 (tag 101 <: 100), a (tag 102) and c (100, 102);
+   a shared child tagged 100; a child under p0 tagged 101 *)
+
+Theorem C14_example_hyps :
+  wf_b tg_env tg_heap = true /\ keys_ok tg_heap /\ root_ok tg_heap tg_root /\ args_ok tg_heap.
+Proof. exact tg_hyps. Qed.
+Print Assumptions C14_example_hyps.
+
+Theorem C14_set_tagged_nonvacuous :
+  set_tagged tg_env tg_subtags tg_heap tg_root 100%N (RA (AInt 9)) =
+  [ NBuildable BConfig 11%N [(KName 2%N, RA (AInt 9))] [(KName 2%N, [100%N])];
+    NBuildable BConfig 11%N [(KName 2%N, RA (AInt 6))] [(KName 2%N, [101%N])];
+    NList [RP 0];
+    NBuildable BConfig 10%N
+      [(KPos 0, RA (AInt 9)); (KName 2%N, RP 0); (KName 3%N, RP 2); (KName 4%N, RA (AInt 9))]
+      [(KPos 0, [101%N]); (KName 2%N, [102%N]); (KName 4%N, [100%N; 102%N])] ] /\
+  visited tg_env tg_subtags 100%N (RA (AInt 9)) tg_heap tg_root = [2; 0; 3] /\
+  list_tags tg_env tg_heap tg_root = [100%N; 101%N; 102%N] /\
+  set_tagged tg_env tg_subtags tg_heap tg_root 103%N (RA (AInt 9)) = tg_heap /\
+  set_tagged tg_env tg_subtags tg_heap tg_root 101%N (RP 0) =
+  [ NBuildable BConfig 11%N [(KName 2%N, RA (AInt 5))] [(KName 2%N, [100%N])];
+    NBuildable BConfig 11%N [(KName 2%N, RA (AInt 6))] [(KName 2%N, [101%N])];
+    NList [RP 0];
+    NBuildable BConfig 10%N
+      [(KPos 0, RP 0); (KName 2%N, RP 0); (KName 3%N, RP 2); (KName 4%N, RA (AInt 1))]
+      [(KPos 0, [101%N]); (KName 2%N, [102%N]); (KName 4%N, [100%N; 102%N])] ].
+Proof. exact set_tagged_nonvacuous. Qed.
+Print Assumptions C14_set_tagged_nonvacuous.
